@@ -250,3 +250,6 @@ class IndexMachine(HistoryMachine):
 
 def parts(tier):
     return [MachinePart('fetch-history', IndexMachine, engine.replay_machine_case(start, step), 1600, 24000, steps=40)]
+
+
+RULE += '  Added after the seeding rounds: every fetched record is also read through the cursor of its LogicalData (as the decoders do); identical consecutive requests; the generator additions of C01; the index is built from a handle positioned anywhere.'
